@@ -257,6 +257,7 @@ pub fn def(tier: Tier) -> CheckDef {
         ],
         idle_limit_s: 600,
         needs_cli: false,
+        fuzz: None,
         parts: vec![
             Part {
                 name: "enum-small",
@@ -331,7 +332,7 @@ pub fn def(tier: Tier) -> CheckDef {
                 run: Box::new(|ctx, r| ctx.prop("random", r, 2000, 300, random_case)),
                 replay: Some(Box::new(|ctx, inp| match inp {
                     ReplayInput::Choices(c) => random_case(ctx, &mut Ch::new(c)),
-                    ReplayInput::Text(_) => Err(Failure::new("this part replays from choices", "")),
+                    _ => Err(Failure::new("this part replays from choices", "")),
                 })),
             },
         ],
